@@ -21,7 +21,7 @@ STRATS = {
     "pk2full": {"packaged": {"max_attempts": 2, "initial": 2, "max": 5, "rate": 3, "jitter": "FULL"}},
 }
 MAXA = {"t1": 2, "t13": 3, "t0": 2, "k02": 3, "t303": 4, "none": 1, "only-boom": 3, "pk3": 3, "pk2full": 2}
-PATTERNS = {"ok": 0, "fail1": 1, "fail2": 2, "fail3": 3, "always": 99, "bam": "bam"}
+PATTERNS = {"ok": 0, "fail1": 1, "fail2": 2, "fail3": 3, "always": 99, "bam": "bam", "sdkerr2": 2}
 
 
 def step(sn, pn, sem=None):
@@ -39,6 +39,10 @@ def _step(sn, pn):
         fn = {"raise": "Boom", "msg": "always"}
     elif pn == "ok":
         fn = {"ret": "v"}
+    elif pn == "sdkerr2":
+        # user code inside the step fails with one of the SDK's own exception classes (e.g. while decoding a payload with
+        # the SDK's serializer): still a step failure, handled by the retry strategy
+        fn = {"fail": 2, "cls": "SerDesError", "then": {"ret": "v"}}
     else:
         fn = {"fail": PATTERNS[pn], "then": {"ret": "v"}}
     return {"k": "try", "catch": ["CallableRuntimeError"], "body": {"k": "step", "fn": fn, "retry": STRATS[sn]}}
@@ -111,6 +115,8 @@ def judge(d, _=None):
         else:
             failures = PATTERNS[pn]
             expected = min(failures + 1, maxa)
+            if pn == "sdkerr2" and sn == "only-boom":
+                expected = 1   # the error class is not in the strategy's retryable list
         n_done = len(done)
         if m.get("most") and crashes:
             pass
